@@ -221,7 +221,19 @@ def gen(rng, tier, idx):
 _COUNTER = [0]
 
 
+def _quiet_unraisable(u):
+    """ZODB's conflict resolution compares PersistentReference objects while the garbage collector clears
+    an ObjectWriter; CPython reports the (ignored) ValueError/SystemError on stderr - noise, not a result"""
+    import sys
+    msg = "%s %s" % (getattr(u.exc_type, "__name__", ""), u.exc_value)
+    if "PersistentReferences" in msg or "WeakSet" in msg:
+        return
+    sys.__unraisablehook__(u)
+
+
 def impl_run(hyp, case):
+    import sys
+    sys.unraisablehook = _quiet_unraisable
     import transaction
     from ZODB import DB
     from ZODB.FileStorage import FileStorage
